@@ -101,3 +101,22 @@ Theorem C09_exiting_frames_in_series : forall n code ws oid a nm g,
              /\ length cs = length ws.
 Proof. exact exiting_in_series. Qed.
 Print Assumptions C09_exiting_frames_in_series.
+
+(* An exit stack observed in the middle of its own __exit__ / __aexit__ (for every sequence of
+   callbacks still registered, every popped callback [cur]): the stack's context is exiting, it has
+   one child per callback still registered, and every generator-based manager among them is NOT
+   exiting — it keeps inner_stack = the extraction of its generator; the frames of the manager
+   being exited follow in the main series. *)
+Theorem C09_exiting_stack_children : forall n cbs oid a nm code ws cur,
+  seq_modelled cbs = true -> seq_nof10 cbs = true ->
+  exists cs kids rest,
+    series (S (S (S n))) (Frm code ws (TExitS (Wth oid a nm (MStack cbs)) cur))
+      = FOut code (cs ++ [COut oid a true None kids KTop]) :: rest /\
+    rest = match cur with MGen g => series (S (S n)) g | _ => [] end /\
+    length kids = length cbs /\
+    forall j k falsy x av oself ocb g,
+      nth_error cbs j = Some (Cb k falsy x av oself ocb (MGen g)) -> has_receiver k = true ->
+      exists info,
+        nth_error kids j = Some (COut oself (spec_async k) false (Some (series n g)) [] info).
+Proof. exact exiting_stack_children. Qed.
+Print Assumptions C09_exiting_stack_children.
